@@ -113,3 +113,43 @@ Lemma ex_process :
   | _ => False
   end.
 Proof. vm_compute. repeat split. Qed.
+
+(* ---- the thread walks on a MULTI-THREADED executor: any instruction-level interleaving of the per-thread futures
+   (minidump-stackwalk runs process_minidump on tokio's multi-threaded runtime; two processings of dumps on one symbolizer
+   are polled by different workers).  Composition of the instruction-level theorems (C12/ProgFine.v, ProgCount.v, ProgFair.v,
+   ProgStats.v) with the walker's task derivation. ---- *)
+From RM Require Import C12.ProgFine C12.ProgCount C12.ProgMeasure C12.ProgFair C12.ProgStats.
+
+Lemma processor_instr : forall (d : dump) (base : config) (ms : list task), walk_ok d ->
+  (forall k, psupplier_calls (pmrun src_program (proc_pc src_walker d base) ms) k <= 1) /\
+  (forall t i k o, ptask_result (pmrun src_program (proc_pc src_walker d base) ms) t i = Some (k, o) -> o = outc base k) /\
+  proc (psh (pmrun src_program (proc_pc src_walker d base) ms)) <= req (psh (pmrun src_program (proc_pc src_walker d base) ms)) /\
+  req (psh (pmrun src_program (proc_pc src_walker d base) ms)) <= distinct_keys (cfg (proc_pc src_walker d base)) /\
+  (forall lf o, stats (psh (pmrun src_program (proc_pc src_walker d base) ms)) lf = Some o ->
+     exists k, leaf base k = lf /\ o = outc base k /\ psupplier_calls (pmrun src_program (proc_pc src_walker d base) ms) k = 1) /\
+  (pall_done (proc_pc src_walker d base) (pmrun src_program (proc_pc src_walker d base) ms) = true ->
+     (forall th f k, In th d -> In f th -> f_module f = Some k ->
+        psupplier_calls (pmrun src_program (proc_pc src_walker d base) ms) k = 1) /\
+     (forall t, map fst (results (psh (pmrun src_program (proc_pc src_walker d base) ms)) t) =
+                map snd (nth t (ptasks (proc_pc src_walker d base)) [])) /\
+     req (psh (pmrun src_program (proc_pc src_walker d base) ms)) = distinct_keys (cfg (proc_pc src_walker d base)) /\
+     proc (psh (pmrun src_program (proc_pc src_walker d base) ms)) = distinct_keys (cfg (proc_pc src_walker d base))) /\
+  (forall T, fair (length (ptasks (proc_pc src_walker d base))) T ms ->
+     T * imu (cfg (proc_pc src_walker d base)) (length (ptasks (proc_pc src_walker d base))) (pinit (proc_pc src_walker d base)) <= length ms ->
+     pall_done (proc_pc src_walker d base) (pmrun src_program (proc_pc src_walker d base) ms) = true).
+Proof.
+  intros d base ms Hok.
+  assert (Hsym : sym_only (proc_pc src_walker d base)) by (rewrite src_walker_is_canon; apply canon_sym_only; exact Hok).
+  split; [intro k; apply src_pm_at_most_once|].
+  split; [intros t i k o H; apply (src_pm_same_outcome (proc_pc src_walker d base) ms t i k o H)|].
+  split; [apply (src_pm_processed_le_requested _ ms Hsym)|].
+  split; [apply (src_pm_requested_le_distinct _ ms Hsym)|].
+  split; [intros lf o H; apply (src_pm_stats_sound (proc_pc src_walker d base) ms lf o H)|].
+  split.
+  - intro Hd. split; [|split].
+    + intros th f k Hth Hf Hm. apply src_pm_exactly_once; [exact Hd|].
+      rewrite src_walker_is_canon. apply (canon_frame_module_requested d base th f k Hth Hf Hm).
+    + intro t. apply src_pm_results_complete. exact Hd.
+    + apply (src_pm_counters_quiescent _ ms Hsym Hd).
+  - intros T Hf Hl. apply (src_pm_fair_finishes _ T ms Hf Hl).
+Qed.
